@@ -6,6 +6,10 @@ sequentially by the harness; `sel:w` parks worker w inside the real `poll_one()`
 claim UPDATE, `claim:w` lets it continue.  Time is explicit: lock_duration and every delay are 1 hour, `expire`
 and `mature` rewrite the timestamp columns.  After every op the durable rows (read through a separate
 connection) and the caller-visible outcome are compared with the Lean model `Stab.Queue`.
+
+Pair suite (section "pairs" below): two operations of two connections on the SAME message, one of them parked before each
+of its SQL statements / its commit while the other runs completely; conservation, one-holder, return-value and
+equals-one-sequential-order oracles on the implementation, and the outcome compared with the model's two sequential orders.
 """
 from __future__ import annotations
 
@@ -20,7 +24,17 @@ from pathlib import Path
 from harness import core
 from harness.dbshim import CTL, Crash, Worker, install
 
-RULE = ("random op sequences (12-40 ops, 2-3 workers, queue max_attempts 1-3) generated adaptively against the real queue: "
+RULE = ("(1) pairs, enumerated completely: one message; 15 precondition states (in queue unlocked / held, lock live / held, lock lapsed / "
+        "held on its final attempt, live or lapsed / attempts exhausted and released / in the DLQ; the Message object held by the "
+        "caller of X, of Y, or by a third client) x every ordered pair (X, Y) of operations applicable there from {poll_one, ack, "
+        "reschedule (delay 0 / 1 h), extend_lock, check_and_move_expired, move_to_dlq, replay_dlq, lock-expiry-then-poll} on two "
+        "connections of one SQLite file x every k: X is parked before its k-th SQL statement and before its COMMIT (k = 0 is Y;X, "
+        "never parked is X;Y — the statement lists are measured on the tree under test and recorded), Y runs completely, X resumes. "
+        "A schedule in which Y meets X's write lock (busy_timeout 0) is recorded as blocked and skipped. lock-expiry-then-poll is "
+        "enumerated as Y only: as X it is poll_one in the matching lapsed state. Thorough tier adds two variants of the whole space: a "
+        "delayed bystander message no operation may touch, and a message that already failed once. A schedule is distinct by "
+        "(state, X, Y, k, variant); all are non-trivial. "
+        "(2) random op sequences (12-40 ops, 2-3 workers, queue max_attempts 1-3) generated adaptively against the real queue: "
         "push / transactional push (own max_attempts) / undeserialisable rows, split and atomic polls, ack / reschedule / "
         "extend by the holder, by stale workers (lapsed lock, old Message object) and with hand-made Messages, expire / mature, move_to_dlq / sweep / replay_dlq, process_one with a "
         "scripted handler, crash at the k-th commit inside an op; every sequence ends with a drain. A case is distinct by its "
@@ -34,12 +48,32 @@ ASSUMPTIONS = [
     "claim token); calls with a hand-made Message are exercised for the correspondence (model ops rresched / rextend) but a "
     "held row claimed after such a call is tagged, not reported",
     "a crash is 'the first k commits of the operation are durable, all Python objects are gone' (commit() raises a BaseException)",
+    "pairs: exactly one of the two operations is split, the other runs without interruption between two statements of the first. "
+    "Every one of the eight operations is `reads, then at most one write transaction` per row (recorded statement lists), and SQLite "
+    "admits one write transaction at a time, so every two-connection interleaving is one of these schedules up to swapping adjacent reads",
+    "pairs: the connections' busy_timeout is lowered from 30 s to 0, so `Y waits for X's write lock` shows as an immediate `database is "
+    "locked` = schedule not permitted; the wait-then-proceed continuation is the sequential order X;Y, which is enumerated",
+    "pairs: the lapse in lock-expiry-then-poll is an UPDATE by the harness connection; while X holds the write lock it cannot be made "
+    "(recorded as blocked) although real time would pass — the poll after it would be blocked by the same lock unless it finds no candidate",
+    "pairs: `acknowledged` = the row was deleted from the queue table by the connection that was executing ack() (a SQL function "
+    "registered on every connection labels the trigger ledger); an ack() that deletes nothing acknowledges nothing",
+    "pairs: the count returned by check_and_move_expired is not compared (it is the number of rows the sweep's SELECT saw; when another "
+    "connection moves or acknowledges the row first the sweep still counts it) — masked as `n` on both sides",
+    "pairs: an outcome that differs from both sequential orders ONLY in deliver_at (deliverable flag / delivery order) is recorded under "
+    "pair_timing_only_differences, not reported: reschedule(delay) by a lapsed holder between another poller's SELECT and claim lets the "
+    "claim succeed (reschedule does not bump the version), i.e. one retry delay is skipped; places, holder and return values are those of X;Y",
 ]
 TRUSTED_BASE = [
     "hand-written model lean/Stab/Model/Queue.lean of queue/sqlite/queue.py, dlq.py, transaction.py:push_message and the "
     "poll/ack/reschedule calls of processor.process_one; tied to the code by the Mode-A differential only",
     "SQLite PRIMARY KEY AUTOINCREMENT (unique, never reused ids), atomic commit/rollback, DELETE … RETURNING",
     "the INSERT/DELETE triggers and the separate observer connection see exactly the durable changes",
+    "pairs: the sequential reference is the same model (driver form `queue <m> <setup> <A> <B> ab|ba|split`, Stab.Queue.showPairOrder / "
+    "showPairSplit); that an interleaved execution equals one sequential order is CHECKED on every enumerated schedule, not proved — "
+    "the theorems (pair_conservation, pair_one_holder, replay_second_fails, move_second_noop, ack_excludes_move, move_excludes_ack) "
+    "are about the sequential orders; SQLite's statement atomicity and write-lock exclusion between connections are trusted",
+    "pairs: harness/dbshim.py gates (park before execute() / before a transaction-ending commit()) are the only scheduler; statements "
+    "issued through cursor objects or executemany would not be seen (the queue code uses conn.execute only)",
 ]
 
 HOUR = timedelta(hours=1)
@@ -730,6 +764,458 @@ def shrink(pool: Pool, max_attempts: int, nworkers: int, hops: list[str], sig: s
 
 
 # ------------------------------------------------------------------------------------------------
+# pairs: two queue operations of two connections on the SAME message; one of them (X) is parked before its k-th
+# SQL statement / commit while the other (Y) runs completely, then X continues
+# ------------------------------------------------------------------------------------------------
+
+class Blocked(Exception):
+    """the other connection holds SQLite's write lock: not an interleaving SQLite permits"""
+
+
+ROLE_CLIENT = {"x": 0, "y": 1, "3": 2}      # x = caller of the split op, y = caller of the complete op, 3 = a bystander client
+
+
+def _pair_states() -> dict[str, tuple[int, str | None, list[str]]]:
+    """name -> (queue max_attempts, role that holds the Message object | None, setup ops); the one message is row 1, tag 0"""
+    st: dict[str, tuple[int, str | None, list[str]]] = {
+        "free": (3, None, ["push:0"]),                                       # in the queue, never delivered
+        "exh-free": (1, None, ["push:0", "poll:2", "resched:2:1:0"]),        # attempts exhausted, released, waiting for the sweep
+        "dlq": (3, None, ["push:0", "dlq:1"]),                               # parked in the DLQ (entry 1)
+    }
+    for role, c in ROLE_CLIENT.items():
+        st[f"held-{role}"] = (3, role, ["push:0", f"poll:{c}"])                           # held, lock live
+        st[f"lapsed-{role}"] = (3, role, ["push:0", f"poll:{c}", "expire:1"])            # held, lock lapsed
+        st[f"exh-held-{role}"] = (1, role, ["push:0", f"poll:{c}"])                       # held on its FINAL attempt
+        st[f"exh-lapsed-{role}"] = (1, role, ["push:0", f"poll:{c}", "expire:1"])        # final attempt, lock lapsed
+    return st
+
+
+PAIR_STATES = _pair_states()
+PAIR_OPS = ("poll", "xpoll", "ack", "resched", "reschedd", "extend", "sweep", "dlq", "replay")
+
+
+def pair_ops_for(state: str, actor: str, complete: bool) -> list[str]:
+    """the operations `actor` (x | y) can apply to the message in `state`"""
+    _, holder, _ = PAIR_STATES[state]
+    ops = ["poll", "sweep", "replay" if state == "dlq" else "dlq"]
+    if complete and state.startswith(("held", "exh-held")):
+        # lock-expiry-then-poll.  As the SPLIT op it is `poll` in the matching lapsed-* state (the lapse is an event of
+        # the environment, not a statement of the caller), so it is enumerated as the complete op only.
+        ops.append("xpoll")
+    if holder == actor:
+        ops += ["ack", "resched", "reschedd", "extend"]
+    return ops
+
+
+def _model_group(op: str, c: int) -> str:
+    return {"poll": f"poll:{c}", "xpoll": f"expire:1;poll:{c}", "ack": f"ack:{c}:1", "resched": f"resched:{c}:1:0",
+            "reschedd": f"resched:{c}:1:1", "extend": f"extend:{c}:1", "sweep": "sweep", "dlq": "dlq:1", "replay": "replay:1"}[op]
+
+
+class PairBed(Bed):
+    """queue only (no store / processor); every connection labels its ledger entries with the operation it is executing"""
+
+    def __init__(self, max_attempts: int, base: Path, workers: list[Worker], producer: Worker):
+        self.who: dict[str, str] = {}
+        super().__init__(max_attempts, 3, base, workers, producer)
+        self.admin.execute("PRAGMA busy_timeout = 0")
+        self.admin.create_function("v_who", 0, lambda: "admin")
+        self.admin.executescript("""
+            CREATE TABLE v_pl(seq INTEGER PRIMARY KEY AUTOINCREMENT, tbl TEXT, op TEXT, rid INTEGER, payload TEXT, who TEXT);
+            CREATE TRIGGER v_pq_ins AFTER INSERT ON queue_messages BEGIN
+              INSERT INTO v_pl(tbl,op,rid,payload,who) VALUES('q','ins',NEW.id,NEW.payload,v_who()); END;
+            CREATE TRIGGER v_pq_del AFTER DELETE ON queue_messages BEGIN
+              INSERT INTO v_pl(tbl,op,rid,payload,who) VALUES('q','del',OLD.id,OLD.payload,v_who()); END;
+            CREATE TRIGGER v_pd_ins AFTER INSERT ON queue_messages_dlq BEGIN
+              INSERT INTO v_pl(tbl,op,rid,payload,who) VALUES('d','ins',NEW.id,NEW.payload,v_who()); END;
+            CREATE TRIGGER v_pd_del AFTER DELETE ON queue_messages_dlq BEGIN
+              INSERT INTO v_pl(tbl,op,rid,payload,who) VALUES('d','del',OLD.id,OLD.payload,v_who()); END;
+        """)
+        self.xstmts: list[str] = []
+        self.pair_out: str | None = None       # "<out of X>,<out of Y>#<durable state>"
+        self.pair_status = "not-run"           # done | blocked
+        self.parked_at: str | None = None
+
+    def _build(self) -> None:
+        from stabilize import SqliteQueue
+
+        q = SqliteQueue(self.cs, table_name="queue_messages", lock_duration=HOUR, max_attempts=self.max_attempts)
+        self.queue = q
+        self.script = None
+        who = self.who
+
+        def mk(name: str):
+            def f():
+                if name == "prod":
+                    q._create_table()
+                c = q._get_connection()
+                c.execute("PRAGMA busy_timeout = 0")       # a writer that meets the other connection's lock fails at once
+                c.create_function("v_who", 0, lambda: who.get(name, name))
+            return f
+
+        self.producer.call(mk("prod"))
+        for i, w in enumerate(self.workers[: self.nworkers]):
+            w.call(mk(str(i)))
+
+    # ---- one operation of client c ------------------------------------------------------------------
+    def _pair_fn(self, c: int, op: str):
+        q = self.queue
+        if op in ("poll", "xpoll"):
+            return q.poll_one
+        if op == "ack":
+            return lambda: q.ack(self._msg(1, c))
+        if op in ("resched", "reschedd"):
+            return lambda: q.reschedule(self._msg(1, c), HOUR if op == "reschedd" else timedelta(0))
+        if op == "extend":
+            return lambda: q.extend_lock(self._msg(1, c))
+        if op == "sweep":
+            return q.check_and_move_expired
+        if op == "dlq":
+            return lambda: q.move_to_dlq(1, "verif")
+        if op == "replay":
+            return lambda: q.replay_dlq(1)
+        raise core.Infra(f"unknown pair op {op}")
+
+    def _pair_post(self, c: int, op: str, val) -> str:
+        """caller-visible outcome + what the caller now believes about holding the row"""
+        if op in ("poll", "xpoll"):
+            if val is None:
+                return "none"
+            rid = int(val.message_id)
+            self.msgs[(c, rid)] = val
+            self.on_got(c, rid, val.attempts)
+            return f"got:{rid}:{_tag_of(val.execution_id)}:{val.attempts}"
+        if op == "ack":
+            self.on_release(c, 1, "ack")
+            return "ok"
+        if op in ("resched", "reschedd"):
+            self.on_release(c, 1, "reschedule")
+            return "ok"
+        if op == "extend":
+            if val:
+                for l in self.leases.get(1, []):
+                    if l["w"] == c and not l["live"]:
+                        l["live"] = True
+                        l["revived"] = True
+            return "1" if val else "0"
+        if op == "sweep":
+            return f"n{val}"
+        if op == "dlq":
+            return "ok"
+        return "1" if val else "0"
+
+    def _expire_by_admin(self) -> None:
+        try:
+            self.admin.execute("UPDATE queue_messages SET locked_until = ? WHERE id = 1 AND locked_until IS NOT NULL "
+                               "AND NOT (datetime(locked_until) < datetime('now','utc'))", (PAST,))
+        except sqlite3.OperationalError as e:
+            if "locked" in str(e):
+                raise Blocked() from None
+            raise
+        for l in self.leases.get(1, []):
+            l["live"] = False
+            l["revived"] = False
+
+    def _unlock(self, w: Worker) -> None:
+        q = self.queue
+
+        def f():
+            c = q._get_connection()
+            if c.in_transaction:
+                c.rollback()
+
+        w.call(f)
+
+    def _run_complete(self, c: int, op: str) -> str:
+        """client c runs `op` from start to end; Blocked if it meets the parked client's write lock"""
+        w = self.workers[c]
+        self.who[str(c)] = f"{c}:{op}"
+        pre = ""
+        if op == "xpoll":
+            self._expire_by_admin()
+            pre = "ok+"
+        try:
+            val = w.call(self._pair_fn(c, op))
+        except sqlite3.OperationalError as e:
+            self._unlock(w)
+            if "locked" in str(e):
+                raise Blocked() from None
+            raise
+        self._after_call(w)
+        return pre + self._pair_post(c, op, val)
+
+    def pair(self, xop: str, yop: str, k: int | None, say=None) -> None:
+        """X = client 0 parked before its k-th statement (None: never), Y = client 1 complete; then the oracles"""
+        say = say or (lambda s: None)
+        wx, wy = self.workers[0], self.workers[1]
+        self.pseq = self.admin.execute("SELECT COALESCE(MAX(seq), 0) FROM v_pl").fetchone()[0]
+        self.ledger_since()
+        nh0 = len(self.hits)
+        cnt = {"i": 0}
+
+        def point(label: str) -> None:
+            i = cnt["i"]
+            cnt["i"] += 1
+            self.xstmts.append(label)
+            if k is not None and i == k:
+                say(f"  X parked before its statement {i}: {label}")
+                wx.park_here({"k": i, "at": label})
+            say(f"  X stmt {i}: {label}")
+
+        CTL.gates[wx.ident] = lambda sql, params: point(" ".join(sql.split())[:100])
+        CTL.commit_gates[wx.ident] = lambda: point("COMMIT")
+        self.who["0"] = f"0:{xop}"
+        outy = None
+        blocked = False
+        try:
+            wx.start_call(self._pair_fn(0, xop))
+            kind, val = wx.wait_parked_or_done()
+            if kind == "parked":
+                self.parked_at = val["at"]
+                try:
+                    outy = self._run_complete(1, yop)
+                    say(f"  Y {yop} (complete, client 1) -> {outy}   [{self.state_line()}]")
+                except Blocked:
+                    blocked = True
+                    say(f"  Y {yop} meets X's write lock (database is locked): SQLite does not permit this interleaving")
+                wx.resume()
+                kind, val = wx.wait_parked_or_done()
+        finally:
+            CTL.gates.pop(wx.ident, None)
+            CTL.commit_gates.pop(wx.ident, None)
+        self._after_call(wx)
+        outx = self._pair_post(0, xop, val)
+        say(f"  X {xop} (client 0) -> {outx}")
+        if blocked:
+            self.pair_status = "blocked"
+            return
+        if outy is None:
+            outy = self._run_complete(1, yop)
+            say(f"  Y {yop} (complete, client 1, after X returned) -> {outy}")
+        # ---- ledger: a row deleted from the queue table by a connection executing `ack` is an acknowledgement
+        led = self.admin.execute("SELECT tbl, op, payload, who FROM v_pl WHERE seq > ? ORDER BY seq", (self.pseq,)).fetchall()
+        self.ledger_since()
+        for tbl, kind2, pl, who in led:
+            if tbl == "q" and kind2 == "del" and who.endswith(":ack"):
+                self.acked.append(_tag_of(pl))
+        self.pair_status = "done"
+        self.pair_out = f"{outx},{outy}#{self.state_line()}"
+        say(f"  final: {self.pair_out}")
+        # ---- oracles of the property as stated -------------------------------------------------------------
+        name = f"{xop}-{yop}"
+        at = f"X={xop} parked before `{self.parked_at}`, Y={yop} complete, then X resumed" if self.parked_at else f"X={xop} then Y={yop}"
+        for t in range(self.next_tag):
+            inq = [r["tag"] for r in self.rows()].count(t)
+            ind = [d["tag"] for d in self.dlq_rows()].count(t)
+            ack = self.acked.count(t)
+            where = f"{inq} queue row(s), {ind} DLQ entr(y/ies), acknowledged {ack}x"
+            if t != 0:
+                if (inq, ind, ack) != (1, 0, 0):
+                    self.hit(f"bystander message t{t}, which neither operation addresses, is affected: {where} ({at})", f"pair:bystander-affected:{name}")
+            elif inq + ind + ack == 0:
+                self.hit(f"message t0 is in none of queue / DLQ / acknowledged ({at})", f"pair:lost:{name}")
+            elif inq + ind + ack > 1:
+                if ack and ind:
+                    self.hit(f"message t0 was acknowledged by its holder AND is parked in the DLQ: {where} ({at})", "pair:acked-and-parked")
+                elif ack and inq:
+                    self.hit(f"message t0 was acknowledged by its holder AND is in the queue again: {where} ({at})", "pair:acked-and-requeued")
+                else:
+                    self.hit(f"message t0 is in {inq + ind + ack} places: {where} ({at})", f"pair:duplicated:{name}")
+        moved_back = sum(1 for tbl, kind2, _pl, who in led if tbl == "d" and kind2 == "del")
+        wins = [o for o, p in ((xop, outx), (yop, outy)) if o == "replay" and p == "1"]
+        if len(wins) > moved_back:
+            self.hit(f"{len(wins)} replay_dlq(1) calls returned True but only {moved_back} DLQ entr(y/ies) left the DLQ ({at})", "pair:two-winners:replay")
+        if xop == "poll" and yop == "poll" and outx.startswith("got:") and outy.startswith("got:") and outx.split(":")[2] == outy.split(":")[2]:
+            self.hit(f"both poll_one calls returned message t0 with no lapse in between ({at})", "pair:two-winners:poll")
+        live = sorted({l["w"] for ls in self.leases.values() for l in ls if l["live"]})
+        for i in range(nh0, len(self.hits)):
+            if self.hits[i][1].startswith("held-row-claimed"):
+                self.hits[i] = (self.hits[i][0] + f" ({at})", f"pair:two-holders:{name}")
+        rows_now = {r["id"]: r for r in self.rows()}
+        for rid, ls in self.leases.items():
+            for l in ls:
+                if l["live"] and not l["revived"] and rid in rows_now and rows_now[rid]["lock"] != "h":
+                    self.hit(f"client {l['w']} holds row {rid} (claimed it, lock not lapsed, not released) but the row's lock is "
+                             f"`{rows_now[rid]['lock']}`: any poller can claim it now ({at})", f"pair:holder-lost-lock:{name}")
+        if len(live) > 1 and not any(s.startswith("pair:two-holders") for _, s in self.hits[nh0:]):
+            self.hit(f"clients {live} both believe they hold the row (lock not lapsed, not released) ({at})", f"pair:two-holders:{name}")
+
+
+PAIR_VARIANTS = ("plain", "bystander", "retry")
+
+
+def pair_setup(sc: dict) -> tuple[int, list[str]]:
+    """(queue max_attempts, setup ops) of a schedule.  Variants: `bystander` = a second, delayed message (row 2) that no
+    operation of the pair may touch; `retry` = the message already failed once (limit one higher), so `exh-*` is the
+    final attempt after a retry and every client-2 Message object is a stale one"""
+    m, _holder, setup = PAIR_STATES[sc["state"]]
+    v = sc.get("variant", "plain")
+    if v == "bystander":
+        setup = [setup[0], "push:1", *setup[1:]]
+    elif v == "retry":
+        m, setup = m + 1, [setup[0], "poll:2", "resched:2:1:0", *setup[1:]]
+    elif v != "plain":
+        raise core.Infra(f"unknown pair variant {v}")
+    return m, setup
+
+
+def _describe(sc: dict) -> str:
+    m, setup = pair_setup(sc)
+    return (f"SqliteQueue(max_attempts={m}); setup {';'.join(setup)} (one message = row 1; client w = its own connection); X = {sc['x']} by client 0 "
+            + ("runs completely, then" if sc["k"] is None else f"is parked before its SQL statement #{sc['k']} (0-based, COMMIT counts), then")
+            + f" Y = {sc['y']} by client 1 runs completely" + ("" if sc["k"] is None else ", then X resumes"))
+
+
+def run_pair(pool: Pool, sc: dict, trace: list[str] | None = None) -> PairBed:
+    """sc = {state, x, y, k[, variant]}: X = sc.x by client 0 parked before its k-th statement (null = never parked: X;Y;
+    0 = before its first statement: Y;X), Y = sc.y by client 1, run completely while X is parked"""
+    m, setup = pair_setup(sc)
+    bed = PairBed(m, pool.base, pool.workers, pool.producer)
+    say = (lambda s: trace.append(s)) if trace is not None else None
+    try:
+        for op in setup:
+            bed.step(op)
+            if say:
+                say(f"  setup {op:18s} -> {bed.outs[-1]}")
+        bed.setup_ops = list(bed.ops)
+        bed.pair(sc["x"], sc["y"], sc["k"], say)
+    finally:
+        for w in (pool.workers[0], pool.workers[1]):
+            CTL.gates.pop(w.ident, None)
+            CTL.commit_gates.pop(w.ident, None)
+        bed.close()
+    return bed
+
+
+def _pair_lines(bed: PairBed, sc: dict) -> list[str]:
+    """model requests: the two sequential orders and — for a poll parked between its SELECT and its claim UPDATE — the
+    model's own split of that poll (`sel; Y; claim`); the answer is `<out X>,<out Y>#<state>` in all of them"""
+    base = f"queue {bed.max_attempts} {';'.join(bed.setup_ops)} {_model_group(sc['x'], 0)} {_model_group(sc['y'], 1)}"
+    cands = [base + " ab", base + " ba"]
+    if sc["x"] == "poll" and (bed.parked_at or "").startswith("UPDATE"):
+        cands.append(base + " split")
+    return cands
+
+
+def _mask(o: str) -> str:
+    """check_and_move_expired returns the number of rows its SELECT saw, not the number it moved (see ASSUMPTIONS)"""
+    head, _, st = o.partition("#")
+    return re.sub(r"\bn\d+", "n", head) + "#" + st
+
+
+def _no_timing(o: str) -> str:
+    """drop what derives from deliver_at (the deliverable flag of each row, the delivery order)"""
+    head, rows, dlq, _order, acked = _mask(o).split("#")
+    rows = ",".join(r.rsplit(".", 1)[0] for r in rows.split(",")) if rows != "-" else "-"
+    return "#".join([head, rows, dlq, acked])
+
+
+def pair_space(variant: str = "plain"):
+    for state in PAIR_STATES:
+        for x in pair_ops_for(state, "x", False):
+            for y in pair_ops_for(state, "y", True):
+                yield {"state": state, "x": x, "y": y} | ({"variant": variant} if variant != "plain" else {})
+
+
+def run_pair_family(pool: Pool, fam: dict, on_bed, ks: list[int] | None = None, trace: list[str] | None = None) -> None:
+    """all schedules of one (state, X, Y): X;Y, Y;X, then X parked before each of its statements / its commit (or only
+    before those in `ks`).  The sequential-order oracle needs the first two, so they are always run."""
+    fam = {k: v for k, v in fam.items() if k != "k"}
+    b_xy = run_pair(pool, fam | {"k": None})
+    on_bed(fam | {"k": None}, b_xy, None)
+    b_yx = run_pair(pool, fam | {"k": 0})
+    on_bed(fam | {"k": 0}, b_yx, None)
+    refs = [b.pair_out for b in (b_xy, b_yx) if b.pair_out is not None]
+    for k in range(1, len(b_xy.xstmts)):
+        if ks is not None and k not in ks:
+            continue
+        sc = fam | {"k": k}
+        bed = run_pair(pool, sc, trace)
+        if bed.pair_status == "done" and _mask(bed.pair_out) not in [_mask(r) for r in refs]:
+            if _no_timing(bed.pair_out) in [_no_timing(r) for r in refs]:
+                # same places, same holder, same return values; only deliver_at differs (a delay that is skipped or kept)
+                bed.tags.append(f"timing-only-difference:{sc['x']}-{sc['y']}")
+                bed.timing_only = True
+            elif not any(sg.startswith("pair:") for _, sg in bed.hits):     # otherwise a consequence of what was already reported
+                bed.hit(f"interleaved outcome {bed.pair_out} is the outcome of neither sequential order "
+                        f"(X;Y = {b_xy.pair_out}, Y;X = {b_yx.pair_out}); X={sc['x']} parked before `{bed.parked_at}`, Y={sc['y']}",
+                        f"pair:outcome-not-sequential:{sc['x']}-{sc['y']}")
+        on_bed(sc, bed, refs)
+
+
+def _pair_suite(ctx, pool: Pool, variants: list[str]) -> None:
+    """exhaustive: every state x every applicable ordered pair x every statement index of the split op"""
+    inputs, cands, impl = [], [], []
+    st = {"n": 0, "blocked": 0, "inside": 0}
+    per_op: dict[str, list[str]] = {}
+    timing_only: list[dict] = []
+
+    def on_bed(sc: dict, bed: PairBed, refs) -> None:
+        st["n"] += 1
+        ctx.count(["pair", sc], nontrivial=True)
+        ctx.tag(f"pair:{bed.pair_status}", f"pair:state:{sc['state']}", f"pair:x:{sc['x']}", f"pair:y:{sc['y']}")
+        for t in bed.tags:
+            ctx.tag("pair:" + t)
+        if sc["k"] is None and sc.get("variant") is None:
+            per_op[f"{sc['state']}:{sc['x']}"] = [re.sub(r"\s+", " ", x)[:60] for x in bed.xstmts]
+        if bed.pair_status == "blocked":
+            st["blocked"] += 1
+            ctx.tag("pair:blocked-at:" + ("COMMIT" if bed.parked_at == "COMMIT" else "statement-after-first-write"))
+            return
+        ctx.tag("pair:split-inside-X" if sc["k"] else "pair:sequential-order")
+        st["inside"] += 1 if sc["k"] else 0
+        for what, sig in bed.hits:
+            ctx.violation(what, sig, {"pair": sc, "reads_as": _describe(sc)})
+        if getattr(bed, "timing_only", False):
+            timing_only.append({"pair": sc, "outcome": bed.pair_out, "sequential": refs})
+        inputs.append({"pair": sc})
+        cands.append(_pair_lines(bed, sc))
+        impl.append(_mask(bed.pair_out))
+        if len([x for x in ctx.samples if "pair" in x]) < 2 and sc["k"]:
+            ctx.sample({"suite": "queue-pairs", "pair": sc, "x_statements": bed.xstmts, "parked_before": bed.parked_at, "outcome": bed.pair_out})
+
+    for v in variants:
+        for fam in pair_space(v):
+            run_pair_family(pool, fam, on_bed)
+    ctx.extra["pair_schedules"] = st["n"]
+    ctx.extra["pair_schedules_inside_the_split_op"] = st["inside"]
+    ctx.extra["pair_schedules_blocked_by_sqlite_write_lock"] = st["blocked"]
+    ctx.extra["pair_statements_of_the_split_op"] = per_op
+    ctx.extra["pair_timing_only_differences"] = timing_only
+    # the ASSUMPTION that lets `Y contiguous` stand for all two-connection interleavings, checked on the measured statement lists
+    odd = {}
+    for key, stmts in per_op.items():
+        kinds = ["c" if x == "COMMIT" else "r" if x.upper().startswith("SELECT") else "w" for x in stmts]
+        first_w = kinds.index("w") if "w" in kinds else len(kinds)
+        if kinds.count("c") > 1 or "r" in kinds[first_w:]:
+            odd[key] = stmts
+    ctx.extra["pair_ops_not_reads_then_one_write_transaction"] = odd
+    if odd:
+        ctx.notes.append(f"pair suite: {sorted(odd)} are not `reads, then one write transaction`; schedules that split BOTH operations are not enumerated")
+    # model tie: the outcome must be the model's outcome of ONE of the two sequential orders (or of the model's own
+    # SELECT / claim split of a poll).  The harness proposes which (the one that matches, else X;Y); ctx.correspond
+    # checks the equality on that line.
+    flat = [l for c in cands for l in c]
+    out = ctx.lean(flat)
+    chosen = []
+    pos = 0
+    for c, o in zip(cands, impl):
+        pick = c[0]
+        if out is not None:
+            outs = out[pos:pos + len(c)]
+            for line, mo in zip(c, outs):
+                if mo == o:
+                    pick = line
+                    break
+            ctx.tag("pair:model-order:" + {"ab": "X;Y", "ba": "Y;X", "split": "sel;Y;claim"}[pick.rsplit(" ", 1)[1]])
+            if outs[0] != outs[1]:
+                ctx.tag("pair:model-orders-differ")
+        pos += len(c)
+        chosen.append(pick)
+    ctx.correspond("queue-pairs", inputs, chosen, impl)
+
+
+# ------------------------------------------------------------------------------------------------
 # entry points
 # ------------------------------------------------------------------------------------------------
 
@@ -782,6 +1268,20 @@ def _run_replays(ctx, pool: Pool) -> None:
     for f in sorted(d.glob("*.json")):
         body = json.loads(f.read_text())
         r = body.get("replay", body)
+        if "pair" in r:
+            hits: list = []
+
+            def on_bed(sc, pb, refs, hits=hits):
+                ctx.count(["pair-replay", sc])
+                ctx.tag("replay-file")
+                for what, sig in pb.hits:
+                    hits.append(sig)
+                    ctx.violation(what, sig, {"pair": sc})
+
+            run_pair_family(pool, r["pair"], on_bed, ks=[r["pair"]["k"]] if r["pair"].get("k") else [])
+            if not hits and body.get("expect") == "violation":
+                ctx.notes.append(f"replay {f.name}: the recorded finding no longer reproduces (fixed?)")
+            continue
         bed = run_fixed(pool, r["max_attempts"], r.get("nworkers", 3), r["ops"])
         ctx.count([r["max_attempts"], bed.ops])
         ctx.tag("replay-file")
@@ -808,6 +1308,8 @@ def run(ctx) -> None:
     pool = Pool()
     try:
         _run_replays(ctx, pool)
+        _pair_suite(ctx, pool, list(PAIR_VARIANTS) if ctx.thorough else ["plain"])
+        ctx.extra["pair_space_enumerated_completely"] = True     # (the op-sequence space below is sampled)
         _suite(ctx, pool, ctx.n(1200, 9000), "queue-mode-a")
         ctx.extra["dangling_write_txn_after_not_found"] = ctx.tags.get("dangling-write-txn-after-not-found", 0)
     finally:
@@ -833,12 +1335,46 @@ def search(ctx) -> None:
         pool.close()
 
 
+def _replay_pair(ctx, pool: Pool, sc: dict) -> int:
+    m, setup = pair_setup(sc)
+    print(f"pair schedule: state `{sc['state']}` (SqliteQueue(max_attempts={m}); setup {setup}), X = {sc['x']} by client 0, "
+          f"Y = {sc['y']} by client 1, X parked before its statement k={sc['k']}" + (f", variant {sc['variant']}" if sc.get("variant") else ""))
+    trace: list[str] = []
+    failed = []
+    beds = []
+
+    def on_bed(s2, bed, refs):
+        beds.append((s2, bed))
+        for what, sig in bed.hits:
+            failed.append((s2, what, sig))
+
+    run_pair_family(pool, sc, on_bed, ks=[sc["k"]] if sc.get("k") else [], trace=trace)
+    for s2, bed in beds[:2]:
+        print(f"  sequential {'X;Y' if s2['k'] is None else 'Y;X'}: {bed.pair_out}")
+    for line in trace:
+        print(line)
+    for s2, what, sig in failed:
+        print(f"PROPERTY FAILS (k={s2['k']}): {what}  [{sig}]")
+    s2, bed = beds[-1]
+    if bed.pair_status == "done":
+        cands = _pair_lines(bed, s2)
+        model = ctx.lean(cands)
+        if model is not None:
+            for c, mo in zip(cands, model):
+                print(f"  model {c.rsplit(' ', 1)[1]:5s}: {mo}" + ("   <-- equals the implementation's outcome" if mo == _mask(bed.pair_out) else ""))
+    else:
+        print(f"  schedule status: {bed.pair_status}")
+    return 1 if failed else 0
+
+
 def replay(ctx, body) -> int:
     install()
     _quiet()
     pool = Pool()
     try:
         r = body.get("replay", body)
+        if "pair" in r:
+            return _replay_pair(ctx, pool, r["pair"])
         bed = Bed(r["max_attempts"], r.get("nworkers", 3), pool.base, pool.workers, pool.producer)
         try:
             for op in r["ops"]:
